@@ -58,6 +58,8 @@ var c18IntTemplates = []string{
 	"{{ 20 | divided_by: x }}",
 	"{% assign y = x %}{{ y }}",
 	"{{ x | append: 'z' }}",
+	"{% if x == 0 %}z{% endif %}{% if x <= 0 %}le{% endif %}{% if 0 == x %}rz{% endif %}{% case x %}{% when 0 %}zero{% else %}other{% endcase %}",
+	"{% if x > 0 %}pos{% endif %}{% if x >= 0 %}nn{% endif %}{% if x != 0 %}nz{% endif %}{% if a contains x %}in{% endif %}",
 }
 
 // VerifC18Ints: an integer prints, compares and enters arithmetic by value, in every width, and as a Drop.
@@ -230,4 +232,24 @@ func VerifC18Nested() {
 	nd.Assert(err == nil, "nested-no-error")
 	nd.Assert(out == "eq|hit|in|", "nested-representations-compare-equal")
 	nd.Reach("C18.nested")
+}
+
+// VerifC18DropElements: Drops standing for maps, nested inside an array, behave as the maps
+// under keyed sort, map, property access and loops.
+func VerifC18DropElements() {
+	k1, k2, k3 := nd.IntIn(0, 9), nd.IntIn(0, 9), nd.IntIn(0, 9)
+	plain := []any{map[string]any{"k": k1, "n": "p"}, map[string]any{"k": k2, "n": "q"}, map[string]any{"k": k3, "n": "r"}}
+	drops := []any{c18Drop{map[string]any{"k": k1, "n": "p"}}, c18Drop{map[string]any{"k": k2, "n": "q"}}, map[string]any{"k": c18Drop{k3}, "n": "r"}}
+	t := []string{
+		"{{ a | sort: 'k' | map: 'n' | join }}",
+		"{{ a | map: 'k' | join: ',' }}",
+		"{% for m in a %}{{ m.k }}{{ m.n }}{% endfor %}",
+		"{{ a[0].k }}{{ a.first.n }}{{ a.last.k }}",
+		"{% assign s = a | sort: 'k' %}{{ s.first.k }}{{ s.last.k }}",
+	}[nd.Choice(5)]
+	o1, e1 := vRender(t, Bindings{"a": plain})
+	o2, e2 := vRender(t, Bindings{"a": drops})
+	nd.Assert(e1 == nil && e2 == nil, "drop-elements-no-error")
+	nd.Assert(o1 == o2, "drop-elements-same-output")
+	nd.Reach("C18.dropelements")
 }
